@@ -25,7 +25,7 @@ def _staged(*stages):
             if replay is not None and replay.get('input') is not None:
                 keys = set(replay['input'].keys())
                 level = replay['input'].get('level')
-                if name == 'values' and 'spec' not in keys and level != 'store':
+                if name == 'values' and replay['input'].get('spec') is None and level != 'store':
                     continue
                 if name == 'sched' and 'case' not in keys and level not in ('falsy', 'nested-names', 'die-in-run'):
                     continue
